@@ -1302,3 +1302,22 @@ Lemma trailing_ws_witness :
   quiet b = true /\ fmt_verbatim_guard b = false /\
   is_infix b (header Goimports Matryer (Some b) None) = false.
 Proof. vm_compute. repeat split. Qed.
+
+(* ================= regeneration histories ================= *)
+Lemma regen_last body old hist s :
+  regen body old (hist ++ [(true, s)]) = Some (render_file body s).
+Proof.
+  unfold regen. rewrite fold_left_app. simpl. unfold write_step.
+  destruct (fold_left _ hist old); reflexivity.
+Qed.
+
+Lemma regen_last_prefix body old hist s :
+  exists rest, regen body old (hist ++ [(true, s)]) =
+               Some ((header (s_fmt s) (s_tmpl s) (s_bp s) (s_tags s) ++ pkg_line (s_pkg s)) ++ rest).
+Proof. exists (body s). rewrite regen_last. unfold render_file. rewrite <- app_assoc. reflexivity. Qed.
+
+Lemma write_step_no_force body c s : write_step body (Some c) false s = (Some c, WExists).
+Proof. reflexivity. Qed.
+
+Lemma write_step_fresh body force s : write_step body None force s = (Some (render_file body s), WOk).
+Proof. reflexivity. Qed.
